@@ -48,6 +48,7 @@ type Datum struct {
 	List  []*Datum
 	IsLst bool
 	IsFlt bool // the float I/2 (0.0, 0.5, -1.5 ..)
+	IsChr bool // the character with code point I
 }
 
 type Node struct {
@@ -86,6 +87,9 @@ func Quote(d *Datum) *Node        { return &Node{K: KQuote, D: d} }
 // Flt is the float literal h/2, written bare in the source (0.0, 1.5, -2.5); the model reads it as the
 // quoted datum %f<h>.
 func Flt(h int64) *Node { return &Node{K: KQuote, D: &Datum{IsFlt: true, I: h}} }
+
+// Chr is the character literal with code point c, written 'c' in the source; the model reads the quoted datum %c<c>.
+func Chr(c rune) *Node { return &Node{K: KQuote, D: &Datum{IsChr: true, I: int64(c)}} }
 
 func fltText(h int64) string { return strconv.FormatFloat(float64(h)/2, 'f', 1, 64) }
 func Call(f *Node, args ...*Node) *Node {
@@ -206,6 +210,8 @@ func (d *Datum) prefix(sb *strings.Builder) {
 		sb.WriteString(")")
 	case d.IsFlt:
 		fmt.Fprintf(sb, "%%f%d", d.I)
+	case d.IsChr:
+		fmt.Fprintf(sb, "%%c%d", d.I)
 	case d.IsInt:
 		sb.WriteString(strconv.FormatInt(d.I, 10))
 	default:
@@ -376,6 +382,8 @@ func (d *Datum) render(r *renderer) {
 		r.t(")")
 	case d.IsFlt:
 		r.t(fltText(d.I))
+	case d.IsChr:
+		r.t("'" + string(rune(d.I)) + "'")
 	case d.IsInt:
 		r.t(strconv.FormatInt(d.I, 10))
 	default:
@@ -424,6 +432,10 @@ func (n *Node) render(r *renderer) {
 	case KQuote:
 		if n.D.IsFlt {
 			r.t(fltText(n.D.I)) // a float literal evaluates to itself
+			return
+		}
+		if n.D.IsChr {
+			r.t("'" + string(rune(n.D.I)) + "'") // so does a character literal
 			return
 		}
 		r.t("(")
